@@ -165,9 +165,10 @@ func main() {
 		}
 	}
 	// a pair whose encoded size (4+4+len(HTTP_name)+len(value)) hits 65499 / 65500 / 65501, alone and with neighbours
-	for _, total := range []int{65499, 65500} { // a pair of 65 501 bytes no longer fits a record and is outside the statement
+	// (the name's length takes one byte and the value's four: the pair is encoded in 5+len(HTTP_X_BIG)+len(value) bytes)
+	for _, total := range []int{65496, 65497, 65498, 65499, 65500} {
 		name := "X-Big"
-		vl := total - 8 - len("HTTP_X_BIG")
+		vl := total - 5 - len("HTTP_X_BIG")
 		hdrSets = append(hdrSets, []hdr{{name, mk(vl, 'b')}})
 		hdrSets = append(hdrSets, []hdr{{name, mk(vl, 'b')}, {"X-After", mk(127, 'a')}, {"X-After2", mk(128, 'c')}})
 	}
